@@ -176,11 +176,37 @@ func genFail(r *vlib.R, emit func(string)) {
 func genPipeCase(r *vlib.R, emit func(string), dflt string) int {
 	mode := vlib.Pick(r, []string{"enforce", "enforce", "enforce", "shadow", "off", "-"})
 	raw := genCaps(r, true)
-	emit(fmt.Sprintf("pipe new %s %s %s", mode, u32csv(raw), dflt))
+	fo := r.Chance(1, 3)
+	if fo {
+		emit(fmt.Sprintf("pipe new %s %s %s failover", mode, u32csv(raw), dflt))
+	} else {
+		emit(fmt.Sprintf("pipe new %s %s %s", mode, u32csv(raw), dflt))
+	}
 	p, _ := mustPolicy(mode, raw)
-	caps := policyCaps(p)
+	caps := configuredCaps(raw)
 	n := r.Range(4, 10)
+	chainID := 0
 	for i := 0; i < n; i++ {
+		if !fo && r.Chance(1, 4) {
+			// an alias chain of bare CNAMEs: one internal sub-query per hop, cold or (warm) from the cache
+			chainID++
+			length := int(caps[1]) + r.Range(-1, 2)
+			if length < 1 {
+				length = 1
+			}
+			if length > 9 {
+				length = r.Range(1, 4)
+			}
+			edns := r.Chance(2, 3)
+			over := p.Mode == middleware.RecursionWorkEnforce && uint32(length) > caps[1]
+			_ = over
+			if r.Chance(1, 2) {
+				emit(fmt.Sprintf("pipe chain %d %d t t 10.9.0.9:40000", chainID, length+r.Intn(2)))
+				i++
+			}
+			emit(fmt.Sprintf("pipe chain %d %d %s f 10.%d.0.%d:40000", chainID, length, vlib.B(edns), r.Intn(200), 1+r.Intn(200)))
+			continue
+		}
 		kind := r.Intn(7) // 0..6 (7 = concurrent crypto has no counting entry point)
 		nd := int(caps[kind]) + r.Range(-1, 2)
 		if nd < 0 {
@@ -189,12 +215,47 @@ func genPipeCase(r *vlib.R, emit func(string), dflt string) int {
 		if nd > 40 {
 			nd = r.Range(0, 3)
 		}
-		if r.Chance(1, 3) {
+		if !fo && r.Chance(1, 6) {
+			// work through the request's context after the request has completed
+			k := vlib.Pick(r, aggKinds)
+			d := int(caps[k]) + r.Range(-3, 1)
+			if d < 0 || d > 40 {
+				d = r.Range(0, 3)
+			}
+			emit(fmt.Sprintf("pipe late %d %d %d %d", 10+i, k, d, r.Range(0, 4)))
+			continue
+		}
+		if !fo && r.Chance(1, 3) {
 			// the resolver answers with a bare alias; the budget runs out (or not) inside the cache's own chase
 			emit(fmt.Sprintf("pipe alias %d %s 10.%d.0.%d:40000 %d %d", r.Range(1, 3), vlib.B(r.Chance(2, 3)), r.Intn(200), 1+r.Intn(200), kind, nd))
 			continue
 		}
 		emit(fmt.Sprintf("pipe query %d %s %s 10.%d.0.%d:40000 %d %d", r.Range(1, 3), vlib.B(r.Chance(2, 3)), vlib.B(r.Chance(1, 3)), r.Intn(200), 1+r.Intn(200), kind, nd))
+	}
+	return n + 1
+}
+
+// genDSCase: D DS records × K same-tag KSKs, plain and anchored walk, caps around K and D·K.
+func genDSCase(r *vlib.R, emit func(string)) int {
+	D, K := r.Range(1, 5), r.Range(1, 12)
+	emit(fmt.Sprintf("ds new %d %d %d %s %s", r.Intn(200), D, K, vlib.Pick(r, []string{"present", "present", "absent"}),
+		vlib.Pick(r, []string{"present", "present", "present", "absent"})))
+	fx := curDS
+	if fx == nil || fx.d != D || fx.k != K {
+		return 1
+	}
+	n := r.Range(3, 7)
+	for i := 0; i < n; i++ {
+		cand := vlib.Pick(r, []int{4, 4, K, K - 1, K + 1, fx.kpos + 1, fx.kpos + 2, r.Range(1, 6)})
+		dsc := vlib.Pick(r, []int{32, 32, K, D * K, D*K - 1, cand, r.Range(1, 20)})
+		if cand < 1 {
+			cand = 1
+		}
+		if dsc < 1 {
+			dsc = 1
+		}
+		emit(fmt.Sprintf("ds verify %s %d %d %s %s %s %d %d", vlib.Pick(r, []string{"enforce", "enforce", "enforce", "shadow", "off"}),
+			cand, dsc, vlib.B(r.Chance(1, 2)), posStr(fx.dpos), posStr(fx.kpos), D, K))
 	}
 	return n + 1
 }
@@ -245,6 +306,7 @@ type l3Plan struct {
 	sig      int
 	qmin     int
 	maxdepth int
+	opts     string
 }
 
 func sizeFor(r *vlib.R, fam string, big bool) int {
@@ -279,10 +341,14 @@ func sizeFor(r *vlib.R, fam string, big bool) int {
 }
 
 func genL3Case(r *vlib.R, emit func(string), p l3Plan) int {
-	emit(fmt.Sprintf("l3 new %s %d %d %s %d %d %d %d %d", p.fam, p.n, p.v, p.mode, p.out, p.in, p.sig, p.qmin, p.maxdepth))
+	hdr := fmt.Sprintf("l3 new %s %d %d %s %d %d %d %d %d", p.fam, p.n, p.v, p.mode, p.out, p.in, p.sig, p.qmin, p.maxdepth)
+	if p.opts != "" {
+		hdr += " " + p.opts
+	}
+	emit(hdr)
 	cnt := 1
 	edns := r.Chance(2, 3)
-	do := edns && (p.fam == "manysig" || r.Chance(1, 4))
+	do := edns && (p.fam == "manysig" || strings.Contains(p.opts, "signed") || r.Chance(1, 4))
 	emit(fmt.Sprintf("l3 query %s %s %s", vlib.B(edns), vlib.B(do), vlib.B(r.Chance(2, 3))))
 	cnt++
 	if p.mode == "enforce" {
@@ -335,6 +401,22 @@ func planL3(r *vlib.R, fam string, v int, mode string, qmin int) l3Plan {
 	if fam == "deep" && r.Chance(1, 3) {
 		p.maxdepth = r.Range(3, 10)
 	}
+	// chain shapes beyond the default one: a signed hierarchy (chain-of-trust sub-lookups per label),
+	// a pipeline without the cache (store-less resolver), the failover middleware with a fallback server
+	var opts []string
+	if (fam == "deep" && v == 0 && p.n <= 12 || fam == "cname" && p.n <= 8 || fam == "nscycle") && r.Chance(1, 3) {
+		opts = append(opts, "signed")
+		if mode == "enforce" && r.Chance(1, 2) {
+			p.out, p.in = 0, r.Range(1, 6)
+		}
+	}
+	if r.Chance(1, 5) {
+		opts = append(opts, "nocache")
+	}
+	if r.Chance(1, 5) {
+		opts = append(opts, "failover")
+	}
+	p.opts = strings.Join(opts, ",")
 	return p
 }
 
@@ -361,6 +443,17 @@ func gen(r *vlib.R, n int, tier string, emit func(string)) {
 			}
 		}
 	}
+	// more KSKs share the DS's key tag than one DS may cost, the genuine one early in the validator's order
+	for _, seed := range []int{3, 5, 8} {
+		emit(fmt.Sprintf("ds new %d 2 7 present present", seed))
+		count++
+		if fx := curDS; fx != nil && fx.k == 7 {
+			for _, a := range []string{"t", "f"} {
+				emitc(fmt.Sprintf("ds verify enforce 4 64 %s %s %s 2 7", a, posStr(fx.dpos), posStr(fx.kpos)))
+				emitc(fmt.Sprintf("ds verify enforce %d 64 %s %s %s 2 7", fx.kpos+1, a, posStr(fx.dpos), posStr(fx.kpos)))
+			}
+		}
+	}
 	// anchors: one hand-picked case per mechanism (sizes that cross the default budgets, the
 	// TCP fallback, the depth caps seen from outside)
 	for _, a := range [][]string{
@@ -382,6 +475,11 @@ func gen(r *vlib.R, n int, tier string, emit func(string)) {
 		{"l3 new manysig 6 1 shadow 0 0 2 5 30", "l3 query t t t"},
 		{"l3 new manysig 8 2 enforce 0 0 1000 0 30", "l3 query t t t", "l3 again 11"},
 		{"l3 new updown 7 0 enforce 6 0 0 5 30", "l3 query t f t"},
+		{"l3 new deep 6 0 enforce 0 3 0 0 30 nocache,signed", "l3 query t t t"},
+		{"l3 new deep 5 0 shadow 0 2 0 5 30 nocache,signed", "l3 query t t t"},
+		{"l3 new hugens 20 0 enforce 0 4 0 0 30 failover", "l3 query t f t", "l3 again 13"},
+		{"l3 new manysig 8 2 enforce 0 0 6 0 30 failover", "l3 query t t t"},
+		{"l3 new lame 2 2 shadow 0 0 0 0 30 failover", "l3 query t f t"},
 		{"l3 new updown 6 1 enforce 5 0 0 10 30", "l3 query f f f", "l3 again 12"},
 		{"l3 new updown 8 0 shadow 0 0 0 5 30", "l3 query t f t"},
 		{"l3 new manysig 6 2 shadow 0 0 1000 5 30", "l3 query t t t"},
@@ -415,7 +513,7 @@ func gen(r *vlib.R, n int, tier string, emit func(string)) {
 			}
 		}
 	}
-	l3Every := 45
+	l3Every := 60
 	sinceL3 := 0
 	for count < n {
 		if sinceL3 >= l3Every {
@@ -426,7 +524,9 @@ func gen(r *vlib.R, n int, tier string, emit func(string)) {
 			continue
 		}
 		before := count
-		switch k := r.Intn(23); {
+		switch k := r.Intn(25); {
+		case k >= 23:
+			count += genDSCase(r, emit)
 		case k >= 20:
 			count += genSigsCase(r, emit)
 		case k < 8:
